@@ -26,7 +26,9 @@ def select(name, tier):
             if name in sweep.SLOW:
                 every *= 3
         else:
-            every = {0: 6, 1: 4, 2: 2, 3: 1}.get(np_, 1)
+            every = {0: 12, 1: 8, 2: 4, 3: 2}.get(np_, 2)
+            if name in sweep.SLOW:
+                every *= 3
         if k % every == 0:
             out.append(a)
     return out
@@ -60,7 +62,7 @@ def _task(task):
         arg = Argument(astr)
         out['groups'] += 1
         runs = []   # (label, Exec)
-        r = tabx.explore(name, arg, bound=1 if tier == 'quick' else 2, max_execs=6 if tier == 'quick' else 120, extra_opts=cap)
+        r = tabx.explore(name, arg, bound=1 if tier == 'quick' else 2, max_execs=6 if tier == 'quick' else 60, extra_opts=cap)
         runs += [(f'default/build/sched{list(x.prefix)}', x) for x in r['results']]
         out['distinct'] += r['distinct']
         for o in tabx.OPTS:
